@@ -34,6 +34,34 @@ fn strategy() -> BoxedStrategy<Case> {
     history_strategy(hist_cfg()).prop_map(|ops| Case { ops }).boxed()
 }
 
+/// structured histories aimed at the edges of the 10-block window: a signed transaction is parked, 8-10
+/// blocks later the same nonce is submitted again (replacement) or another one is parked, and a reorg of
+/// depth 9-11 follows with or without finalising the block that only holds the parked transaction
+fn edge_strategy() -> BoxedStrategy<Case> {
+    let c = hist_cfg();
+    (
+        proptest::collection::vec(op_strategy(c), 0..4),
+        (0u8..3, 1i8..5, payload_strategy(c.prog), payload_strategy(c.prog)),
+        prop_oneof![Just(7u8), Just(8), Just(9), Just(10)],
+        (any::<bool>(), prop_oneof![Just(9u8), Just(10), Just(11)], any::<bool>()),
+        proptest::collection::vec(op_strategy(c), 0..6),
+    )
+        .prop_map(|(pre, (signer, off, p1, p2), gap, (same_nonce, depth, keep_soft), post)| {
+            let b = Blk { hash: HashSel::Fresh, ts: 7 };
+            let mut ops = vec![Op::Init { hash: HashSel::Fresh, ts: 1 }];
+            ops.extend(pre);
+            ops.push(Op::Finalise { blk: b.clone() });
+            ops.push(Op::Transact { signer, nonce: NonceSel::Offset(off), payload: p1, len: Len::Std, blk: b.clone(), b64: false, txid: 0 });
+            ops.push(Op::Finalise { blk: b.clone() });
+            ops.push(Op::Mine { n: gap, ts: 3 });
+            ops.push(Op::Transact { signer, nonce: NonceSel::Offset(if same_nonce { off } else { off + 1 }), payload: p2, len: Len::Std, blk: b.clone(), b64: false, txid: 1 });
+            ops.push(Op::Reorg { depth, keep_soft });
+            ops.extend(post);
+            Case { ops }
+        })
+        .boxed()
+}
+
 /// compare A with a fresh instance fed only the surviving chain
 pub fn compare_with_fresh(a: &mut Runner, sigbase: &str, when: &str) -> Result<(), Failure> {
     let reqs = a.model.effective_requests();
@@ -76,8 +104,11 @@ pub fn check(case: &Case) -> CheckResult {
     let mut a = Runner::new("c01");
     let mut accepted_nontrivial = 0;
     for (i, op) in case.ops.iter().enumerate() {
-        if let Op::Reorg { depth } = op {
-            a.to_boundary();
+        if let Op::Reorg { depth, keep_soft } = op {
+            let soft = *keep_soft && a.soft_open();
+            if !soft {
+                a.to_boundary();
+            }
             let Some(h) = a.model.height() else { continue };
             let n = h.saturating_sub(*depth as u64);
             let expected = a.model.reorg_accepted(n).unwrap();
@@ -85,9 +116,15 @@ pub fn check(case: &Case) -> CheckResult {
             let orphan_state = a.model.blocks[(n as usize + 1).min(a.model.blocks.len())..].iter().any(|b| b.state_changing);
             let was_committed = a.model.committed as u64 > n + 1;
             let r = a.reorg_to(n);
-            if r.is_panic() {
+            if let crate::driver::Resp::Panic(m) = &r {
+                if soft && m.contains("Reorg too deep") && expected {
+                    // known finding (see KNOWN_FINDINGS.txt): pool rows written for a block that is not finalised
+                    // yet are pruned relative to that block, one block further than an accepted reorg may reach
+                    fail!("C01/reorg-inside-window-panics-with-parked-tx-in-unfinalised-block", "op {} reorg({}) at height {} (hef {:?}) with a parked transaction in the unfinalised block: {}", i, n, h, a.model.hef, m);
+                }
                 fail!("C01/reorg-panicked", "op {} reorg({}) at height {}: {:?}", i, n, h, r);
             }
+            info.class_if(soft, "reorg-with-parked-tx-in-unfinalised-block");
             if n == h {
                 // a no-op either way: nothing may change
                 let after = observe(&mut a.inst, &a.uni);
@@ -156,7 +193,15 @@ impl Property for C01 {
             cases: ctx.tier.pick(900, 12_000),
             max_shrink_iters: ctx.tier.pick(250, 1000),
         };
-        explore(ctx, ev, &cfg, strategy, check)
+        let mut found = explore(ctx, ev, &cfg, strategy, check);
+        let edge = PartCfg {
+            name: "window-edge",
+            rule: "structured histories: random prefix, a parked signed transaction, 7-10 mined blocks, a replacement of the same nonce or a second parked nonce, then a reorg of depth 9-11 issued with or without finalising the block that only holds the parked transaction, random suffix; same oracle and non-triviality rule",
+            cases: ctx.tier.pick(240, 4000),
+            max_shrink_iters: ctx.tier.pick(250, 1000),
+        };
+        found.extend(explore(ctx, ev, &edge, edge_strategy, check));
+        found
     }
     fn replay(&self, _part: &str, case: &Value) -> CheckResult {
         check(&decode_case::<Case>(case)?)
